@@ -48,6 +48,7 @@ func credMenu(thorough bool) []credSet {
 		{"plain", "user", "pass", "key1", "tok", "atok"},
 		{"unicode-and-symbols", "üser", "p:ss w", "k&y=1", "t.o-k_é", "a+tok"},
 		{"token-with-bearer-prefix", "user", "pass", "key1", "Bearer tok", "Bearer atok"},
+		{"prefixed-token-with-inner-whitespace", "user", "pass", "key1", "Bearer t ok  x", "Bearer a\ttok y"},
 	}
 	if thorough {
 		m = append(m, credSet{"token-with-spaces", "u s e r", "", "a b c", "a b c", "x y"},
